@@ -1,6 +1,7 @@
 """C01 / C06 (and C13, C16 helpers) implementation side: builds a frame, applies a list of add_signal
 calls described in JSON, and reports after every call the returned array, the data, and the frame
 state; plus before/after checks evaluated here with numpy."""
+import copy
 import sys, json, pickle
 import numpy as np
 import setigen as stg
@@ -46,6 +47,10 @@ def fprof(spec):
     if k == "quad":
         a = spec["a"]
         return lambda f, fc: 1.0 / (1.0 + a * (f - fc) ** 2)
+    if k == "step":
+        # not a function of f - fc alone: a line that is halved below a fixed sky frequency f0
+        a = spec["a"]; f0 = spec["f0"]
+        return lambda f, fc: (1.0 / (1.0 + a * (f - fc) ** 2)) * np.where(f >= f0, 1.0, 0.5)
     raise ValueError(k)
 
 
@@ -86,7 +91,18 @@ def call(fr, s):
               integrate_path=o.get("integrate_path", False), integrate_t_profile=o.get("integrate_t", False),
               integrate_f_profile=o.get("integrate_f", False), doppler_smearing=o.get("smear", False),
               t_subsamples=o.get("t_sub", 10), f_subsamples=o.get("f_sub", 10), smearing_subsamples=o.get("n_smear", 10))
-    return fr.add_signal(comp(s["path"]), comp(s["tprof"]), fprof(s["fprof"]), comp(s.get("bp")), **kw)
+    args = [comp(s["path"]), comp(s["tprof"]), comp(s.get("bp"))]
+    keep = [copy.deepcopy(a) if isinstance(a, (np.ndarray, list)) else None for a in args]
+    ret = fr.add_signal(args[0], args[1], fprof(s["fprof"]), args[2], **kw)
+    # what the caller hands in (path / time profile / bandpass as arrays or lists) is an input: injecting must not write to it
+    for name, a, k0 in zip(("path", "t_profile", "bp_profile"), args, keep):
+        if k0 is not None and not (np.array_equal(np.asarray(a), np.asarray(k0)) and type(a) is type(k0)):
+            raise ArgumentMutated("add_signal changed the %s array handed to it (by up to %g)" % (name, float(np.max(np.abs(np.asarray(a, dtype=float) - np.asarray(k0, dtype=float))))))
+    return ret
+
+
+class ArgumentMutated(Exception):
+    pass
 
 
 def hexm(a):
